@@ -159,6 +159,16 @@ func verifHTTP(method, path, queryKey, queryVal string, req any, failDecode bool
 	return ctx
 }
 
+func verifRawHTTP(method, path, body string) *fasthttp.RequestCtx {
+	ctx := &fasthttp.RequestCtx{}
+	ctx.Request.Header.SetMethod(method)
+	ctx.Request.SetRequestURI(path)
+	if body != "" {
+		ctx.Request.SetBody([]byte(body))
+	}
+	return ctx
+}
+
 func verifHTTPStatus(ctx *fasthttp.RequestCtx) int { return ctx.Response.StatusCode() }
 
 // the number of times status / body were set cannot be observed on a real context
@@ -193,3 +203,6 @@ func (r *verifBytesR) Read(p []byte) (int, error) {
 func bytesReader(b []byte) *verifBytesR { return &verifBytesR{b: b} }
 
 func verifPrefer(c bool) {}
+
+// true only in the compiled replay (the executor answers false in its symbolic and concrete modes)
+func verifNative() bool { return true }
